@@ -650,6 +650,53 @@ def run(chk):
                detail="`%s` is re-inserted with stale links %s: they still point at blocks that were just freed (use after free on the next "
                       "tree walk)" % (root, ["%s[%d]" % m_ for m_ in missing]), key="reinsertlinks|reset")
 
+    # ---------------------------------------------------------------- the initial padding is part of the size a new block is chosen for
+    RP = "R-PADDING-COUNTED"
+    chk.rule(RP, "JitAllocator_calculate_ideal_block_size(): every comparison of the requested size with the candidate block size is reached only "
+                 "after the pool granularity (the initial padding a fresh block reserves) was added to the request, or on the edge where the padding "
+                 "is disabled: a block chosen for the unpadded size is one granule too small for the span that alloc() places in it")
+    fp = chk.facts(UNIT, funcs=r"asmjit::JitAllocator_calculate_ideal_block_size$")
+    gp = cfg.find_fn(fp, "JitAllocator_calculate_ideal_block_size")
+    pdid = [p["did"] for p in gp.params if "size" in p["name"] and "size_t" in p["ty"]]
+    chk.need(len(pdid) == 1, "calculate_ideal_block_size: size parameter not found")
+    pdid = pdid[0]
+
+    def pad_elem(eid, x):
+        if x["k"] == "binop" and x["op"] == "+=":
+            l = gp.e(gp.strip(x["lhs"]))
+            if l is not None and l.get("did") == pdid and "granularity" in gp.text(x["rhs"]):
+                return ((("padded",),), ())
+        return None
+
+    def pad_edge(b, si, atom, holds):
+        x = gp.e(atom)
+        if x is not None and x["k"] in ("call", "mcall") and x.get("cn") == "test" and "kDisableInitialPadding" in gp.text(atom) and holds:
+            return [("padded",)]          # padding disabled: nothing to add
+        return ()
+    mp = Must(gp, pad_elem, pad_edge)
+    ncmp = 0
+    for i, x in sorted(gp.ex.items()):
+        if x["k"] == "binop" and x["op"] in ("<", "<=", ">", ">="):
+            dids = {(gp.e(j) or {}).get("did") for j in gp.walk(i) if (gp.e(j) or {}).get("k") == "ref"}
+            names = {(gp.e(j) or {}).get("name") for j in gp.walk(i) if (gp.e(j) or {}).get("k") == "ref"}
+            if pdid in dids and "block_size" in names:
+                ncmp += 1
+                j = i
+                st = mp.before(j)
+                pm = gp.parent_map()
+                while st is None and j in pm:
+                    j = pm[j]
+                    st = mp.before(j)
+                chk.ob(RP, "calculate_ideal_block_size|cmp@%d" % (gp.line_of(i) - gp.line), ("padded",) in (st or frozenset()), loc=gp.loc(i),
+                       detail="`%s` compares the request with the block size before the initial padding was added to it" % " ".join(gp.text(i).split())[:50],
+                       key="paddingcounted|%d" % ncmp)
+    chk.floor(RP + ":comparisons", ncmp, 1)
+
+    from lib import failpure
+    failpure.run_wrapping_bounds(chk, [("asmjit/core/jitallocator.cpp", r"asmjit::JitAllocator[A-Za-z_0-9:]*$"), ("asmjit/core/virtmem.cpp", r"asmjit::VirtMem::[A-Za-z_0-9]+$"),
+                                       ("asmjit/core/codeholder.cpp", r"asmjit::CodeHolder::(copy_section_data|copy_flattened_data|reserve_buffer|grow_buffer)$")],
+                                 fixture="/verif/fixtures/asmjit/wrapping_bound.cpp")
+
     return chk.finish(
         level="other",
         explanation=("Accounting / guard / flag rules over asmjit/core/jitallocator.{h,cpp}: inverse-paired statistics updates on all "
